@@ -46,10 +46,17 @@ structure App where
   installDur : Int := 2
 deriving DecidableEq, Repr
 
+/-- interface classes as far as `enable()` differs: `NIC` / `RouterInterface` (`IPWiredNetworkInterface.enable` answers
+`True` whatever happened), `SwitchPort` (`WiredNetworkInterface.enable` answers whether the interface is up), the wireless
+access point (`IPWirelessNetworkInterface.enable` passes on the answer of `WirelessNetworkInterface.enable`; needs no link) -/
+inductive NicKind | ipWired | wired | wireless
+deriving DecidableEq, Repr
+
 /-- a network interface: `linked` = a Link is attached (always true for a wireless interface, which needs none) -/
 structure Nic where
   enabled : Bool
   linked : Bool
+  kind : NicKind := .ipWired
 deriving DecidableEq, Repr
 
 structure Node where
@@ -64,6 +71,10 @@ structure Node where
   apps : List App := []
   /-- ghost: every value assigned to `operating_state`, newest first -/
   hist : List PState := []
+  /-- `node_scan_countdown` (armed by `os scan`), `red_scan_countdown` (armed by `scan`), `config.node_scan_duration` -/
+  scanCd : Int := 0
+  redCd : Int := 0
+  scanDur : Int := 10
 deriving DecidableEq, Repr
 
 def Node.isOn (n : Node) : Bool := n.st == .on
@@ -82,6 +93,17 @@ def Nic.enable (nodeOn : Bool) (c : Nic) : Nic :=
   else { c with enabled := true }
 
 def Nic.disable (c : Nic) : Nic := { c with enabled := false }
+
+/-- what `enable()` returns (the request answers `from_bool` of it) -/
+def Nic.enableAnswer (nodeOn : Bool) (c : Nic) : Bool :=
+  match c.kind with
+  | .ipWired => true
+  | .wired => (c.enable nodeOn).enabled
+  | .wireless => (c.enable nodeOn).enabled
+
+/-- `WiredNetworkInterface.connect_link`: refused when a link is already attached; else attach and `enable()` -/
+def Nic.connectLink (nodeOn : Bool) (c : Nic) : Nic :=
+  if c.linked then c else Nic.enable nodeOn { c with linked := true }
 
 def enableNics (n : Node) : Node := { n with nics := n.nics.map (Nic.enable n.isOn) }
 def disableNics (n : Node) : Node := { n with nics := n.nics.map Nic.disable }
@@ -185,9 +207,15 @@ def tickDown (n : Node) : Node :=
     if n1.resetting then (powerOn { n1 with resetting := false }).1 else n1
   else n
 
-/-- third block: software only advances while the node is ON -/
+/-- `if cd > 0: cd -= 1` (what happens when a scan countdown reaches 0 is C14's matter) -/
+def cdStep (c : Int) : Int := if c > 0 then c - 1 else c
+
+/-- third block: the node scan countdowns and the software only advance while the node is ON -/
 def tickSoftware (n : Node) : Node :=
-  if n.st = .on then { n with svcs := n.svcs.map Service.tick, apps := n.apps.map App.tick } else n
+  if n.st = .on then
+    { n with scanCd := cdStep n.scanCd, redCd := cdStep n.redCd,
+             svcs := n.svcs.map Service.tick, apps := n.apps.map App.tick }
+  else n
 
 /-- `Node.apply_timestep` -/
 def tick (n : Node) : Node := tickSoftware (tickDown (tickUp n))
@@ -225,6 +253,7 @@ inductive Sub
   | svc (i : Nat) (v : SvcVerb)
   | app (i : Nat)                    -- `application <name> close`
   | nic (i : Nat) (v : NicVerb)
+  | osScan                           -- `os scan`
   | opaque (r : Resp)                -- anything else: touches none of the modelled state; `r` = what the lower layers answer
 deriving DecidableEq, Repr
 
@@ -264,8 +293,10 @@ def nicRequest (n : Node) (i : Nat) (v : NicVerb) : Node × Resp :=
   | some c =>
     match v with
     | .enable =>
-      -- validator: interface disabled; `IPWiredNetworkInterface.enable()` answers True whatever happened
-      if !c.enabled then ({ n with nics := n.nics.set i (c.enable n.isOn) }, .success) else (n, .failure)
+      -- validator: interface disabled; the answer is `from_bool(enable())` (`IPWiredNetworkInterface.enable()` answers
+      -- True whatever happened, a switch port / access point answers whether it is up)
+      if !c.enabled then ({ n with nics := n.nics.set i (c.enable n.isOn) }, Resp.fromBool (c.enableAnswer n.isOn))
+      else (n, .failure)
     | .disable =>
       if c.enabled then ({ n with nics := n.nics.set i c.disable }, .success) else (n, .failure)
 
@@ -275,10 +306,13 @@ def handle (n : Node) (key : String) (sub : Sub) : Node × Resp :=
   else if key = "startup" then ((powerOn n).1, Resp.fromBool (powerOn n).2)
   else if key = "reset" then ((reset n).1, Resp.fromBool (reset n).2)
   else if key = "logon" ∨ key = "logoff" then (n, .failure)
+  else if key = "scan" then ({ n with redCd := n.scanDur }, .success)        -- `reveal_to_red()`
   else match sub with
     | .svc i v => if key = "service" then svcRequest n i v else (n, .unreachable)
     | .app i => if key = "application" then appRequest n i else (n, .unreachable)
     | .nic i v => if key = "network_interface" then nicRequest n i v else (n, .unreachable)
+    | .osScan =>                                                             -- `Node.scan()`
+      if key = "os" then ({ n with scanCd := if n.scanDur ≤ 1 then 1 else n.scanDur }, .success) else (n, .unreachable)
     | .opaque r => (n, r)
 
 /-- `RequestManager.__call__` at the node level: unknown key → unreachable; validator false → failure; else the handler -/
@@ -332,5 +366,182 @@ def baseRoutes : List Route :=
 
 /-- ping between two directly linked nodes as the rig observes it: the source must be ON and both interfaces pass -/
 def pingOk (src dst : Node) : Bool := src.isOn && nicPasses src 0 && nicPasses dst 0
+
+/-- a ping along a path as the rig observes it: the source must be ON and every interface on the way (both ends of every
+link or air hop, in order) must pass frames -/
+def pathOk (src : Node) (hops : List (Node × Nat)) : Bool := src.isOn && hops.all (fun h => nicPasses h.1 h.2)
+
+/-! ### what runs per tick: `Node.apply_timestep` / `Node.pre_timestep` as statement lists
+
+The two methods as lists of guarded top-level statements (regenerated from the source as `Gen.Power.tickStmts` /
+`Gen.Power.preStmts`). `execTick` runs the list; `exec_tickProgram` (Props) shows it computes `tick`. -/
+
+inductive StmtGuard | always | whenOn
+deriving DecidableEq, Repr
+
+/-- top-level statements of `Node.apply_timestep`, in source order -/
+inductive TickStmt
+  | super        -- `super().apply_timestep` (SimComponent: nothing)
+  | nics         -- every interface's `apply_timestep`
+  | upBlock      -- the start-up countdown block
+  | downBlock    -- the shut-down countdown block
+  | nodeScan     -- `node_scan_countdown` block
+  | redScan      -- `red_scan_countdown` block
+  | procs | svcs | apps   -- `apply_timestep` of every process / service / application
+  | fs           -- `file_system.apply_timestep`
+deriving DecidableEq, Repr
+
+def tickProgram : List (StmtGuard × TickStmt) :=
+  [(.always, .super), (.always, .nics), (.always, .upBlock), (.always, .downBlock),
+   (.whenOn, .nodeScan), (.whenOn, .redScan), (.whenOn, .procs), (.whenOn, .svcs), (.whenOn, .apps), (.whenOn, .fs)]
+
+/-- effect of one statement on the modelled state (interfaces, processes and the file system keep no modelled clock) -/
+def TickStmt.sem : TickStmt → Node → Node
+  | .upBlock, n => tickUp n
+  | .downBlock, n => tickDown n
+  | .nodeScan, n => { n with scanCd := cdStep n.scanCd }
+  | .redScan, n => { n with redCd := cdStep n.redCd }
+  | .svcs, n => { n with svcs := n.svcs.map Service.tick }
+  | .apps, n => { n with apps := n.apps.map App.tick }
+  | _, n => n
+
+def guardHolds : StmtGuard → Node → Bool
+  | .always, _ => true
+  | .whenOn, n => n.st == .on
+
+/-- run a statement list: the state after it and the statements that were executed, in order -/
+def execTick : List (StmtGuard × TickStmt) → Node → Node × List TickStmt
+  | [], n => (n, [])
+  | (g, s) :: rest, n =>
+    if guardHolds g n then
+      let r := execTick rest (s.sem n)
+      (r.1, s :: r.2)
+    else execTick rest n
+
+/-- the statements one `apply_timestep` executes on `n` -/
+def tickActs (n : Node) : List TickStmt := (execTick tickProgram n).2
+
+/-- top-level statements of `Node.pre_timestep`, in source order; none is guarded by the power state and none touches
+the modelled state (they reset per-step counters of interfaces, software and the file system, and the user session
+manager times idle sessions out) -/
+inductive PreStmt | super | nics | procs | svcs | apps | fs
+deriving DecidableEq, Repr
+
+def preProgram : List (StmtGuard × PreStmt) :=
+  [(.always, .super), (.always, .nics), (.always, .procs), (.always, .svcs), (.always, .apps), (.always, .fs)]
+
+/-- the statements one `pre_timestep` executes on `n` -/
+def preActs (n : Node) : List PreStmt := (preProgram.filter (fun p => guardHolds p.1 n)).map (·.2)
+
+/-! ### the Python API called directly (not through a request): what the loader, `setup_for_episode`, tests and
+notebooks do. No validator stands in front of these. -/
+
+inductive ApiCall
+  | powerOn | powerOff | reset
+  | nicEnable (i : Nat) | nicDisable (i : Nat) | connectLink (i : Nat)
+  | svc (i : Nat) (v : SvcVerb)
+  | appRun (i : Nat) | appClose (i : Nat) | appInstall (i : Nat)
+deriving DecidableEq, Repr
+
+def modifyNic (n : Node) (i : Nat) (f : Nic → Nic) : Node :=
+  match n.nics[i]? with
+  | some c => { n with nics := n.nics.set i (f c) }
+  | none => n
+
+def modifySvc (n : Node) (i : Nat) (f : Service → Service) : Node :=
+  match n.svcs[i]? with
+  | some s => { n with svcs := n.svcs.set i (f s) }
+  | none => n
+
+def modifyApp (n : Node) (i : Nat) (f : App → App) : Node :=
+  match n.apps[i]? with
+  | some a => { n with apps := n.apps.set i (f a) }
+  | none => n
+
+def apiCall (n : Node) : ApiCall → Node
+  | .powerOn => (powerOn n).1
+  | .powerOff => (powerOff n).1
+  | .reset => (reset n).1
+  | .nicEnable i => modifyNic n i (Nic.enable n.isOn)
+  | .nicDisable i => modifyNic n i Nic.disable
+  | .connectLink i => modifyNic n i (Nic.connectLink n.isOn)
+  | .svc i v => modifySvc n i (fun s => (svcApply n.isOn s v).1)
+  | .appRun i => modifyApp n i (App.run n.isOn)
+  | .appClose i => modifyApp n i (fun a => a.close.1)
+  | .appInstall i => modifyApp n i App.install
+
+/-- `Network.setup_for_episode` as far as one node goes: `Node.setup_for_episode` (every interface's
+`setup_for_episode` ends with `enable()`; a router first calls `enable_port` on every port), then `power_on()`, every
+interface's `enable()`, every service's `start()` and every application's `run()` -/
+def setupEpisode (n : Node) : Node := startUpActions (enableNics (powerOn (enableNics n)).1)
+
+/-- operations beyond the property's quantifier: the pre-timestep half of a tick, a run-time change of the configured
+durations (`node.config.start_up_duration = …`), direct API calls, episode set-up -/
+inductive XOp
+  | op (o : Op)
+  | preTick
+  | setDur (up down : Int)
+  | api (c : ApiCall)
+  | setupEpisode
+deriving DecidableEq, Repr
+
+def setDur (n : Node) (up down : Int) : Node := { n with upDur := up, downDur := down }
+
+def xstep (tbl : List Route) (n : Node) : XOp → Node
+  | .op o => (step tbl n o).1
+  | .preTick => n
+  | .setDur u d => setDur n u d
+  | .api c => apiCall n c
+  | .setupEpisode => setupEpisode n
+
+def xrun (tbl : List Route) (n : Node) : List XOp → Node
+  | [] => n
+  | o :: os => xrun tbl (xstep tbl n o) os
+
+/-! ### the loader: what `PrimaiteGame.from_config` does to one node's power state -/
+
+/-- what a scenario file declares about one node, as far as the power machine reads it (`Node.ConfigSchema`) -/
+structure Decl where
+  /-- `operating_state` (absent = ON) -/
+  st : Option PState := none
+  upDur : Int := 3
+  downDur : Int := 3
+  upCd : Int := 0
+  downCd : Int := 0
+  resetting : Bool := false
+  /-- interfaces the constructor connects, in port order -/
+  nics : List NicKind := [.ipWired]
+  /-- which of them the file wires (`links:`); missing entries = not wired -/
+  wired : List Bool := []
+  /-- services installed by the constructor (system software) and by the loader (`services:`) -/
+  svcs : Nat := 0
+  /-- applications installed by the constructor and by the loader (`applications:`) -/
+  apps : Nat := 0
+deriving DecidableEq, Repr
+
+def Decl.state (d : Decl) : PState := d.st.getD .on
+
+/-- `Node.__init__` … `connect_nic` (an interface is enabled on connection only if the node is ON and — wired — linked,
+which it never is yet), `SoftwareManager.install` of every service (`start()`) and application (left CLOSED, then
+`run()` by the loader); the loader's `start()` / `run()` are subject to `_can_perform_action` like any other -/
+def construct (d : Decl) : Node :=
+  let on := d.state == .on
+  { st := d.state, upCd := d.upCd, downCd := d.downCd, upDur := d.upDur, downDur := d.downDur, resetting := d.resetting,
+    nics := d.nics.map (fun k => Nic.enable on { enabled := false, linked := k == .wireless, kind := k }),
+    svcs := List.replicate d.svcs (Service.start on { st := .stopped }).1,
+    apps := List.replicate d.apps (App.run on { st := .closed }) }
+
+/-- the loader's power step: durations temporarily 0, `if operating_state == ON: power_on()`, durations := declared -/
+def loaderPower (d : Decl) (n : Node) : Node :=
+  let n0 := { n with upDur := 0, downDur := 0 }
+  let n1 := if n0.st = .on then (powerOn n0).1 else n0
+  { n1 with upDur := d.upDur, downDur := d.downDur }
+
+/-- `Network.connect` for every link of the file: `connect_link` on the wired interfaces it names -/
+def wireUp (wired : List Bool) (n : Node) : Node :=
+  { n with nics := (n.nics.zipIdx).map (fun ci => if wired.getD ci.2 false then Nic.connectLink n.isOn ci.1 else ci.1) }
+
+/-- the node as `PrimaiteGame.from_config` leaves it -/
+def loadNode (d : Decl) : Node := wireUp d.wired (loaderPower d (construct d))
 
 end Primaite.Power
